@@ -380,6 +380,18 @@ type SpyAEAD struct {
 	Returned [][]byte
 	Script   func(callIndex int, op string) bool
 	Payloads map[string]bool // registered payloads (to classify plaintexts)
+	// FaultMode 1: every call is a Choose point {ok, fail}
+	FaultMode int
+}
+
+func (a *SpyAEAD) faulty(seq int, op string) bool {
+	if a.Script != nil {
+		return a.Script(seq, op)
+	}
+	if a.FaultMode == 0 {
+		return false
+	}
+	return vsched.Choose(2, "aead."+op) != 0
 }
 
 func NewSpyAEAD(f *TrackFactory) *SpyAEAD {
@@ -394,7 +406,7 @@ func (a *SpyAEAD) Encrypt(data, key []byte) ([]byte, error) {
 		c.KeyID = a.F.KeyIDOf(key)
 		c.DataKeyID = a.F.KeyIDOf(data)
 	}
-	if a.Script != nil && a.Script(c.Seq, "Encrypt") {
+	if a.faulty(c.Seq, "Encrypt") {
 		c.Err = true
 		a.Calls = append(a.Calls, c)
 		return nil, ErrAEAD
@@ -414,7 +426,7 @@ func (a *SpyAEAD) Decrypt(data, key []byte) ([]byte, error) {
 	if a.F != nil {
 		c.KeyID = a.F.KeyIDOf(key)
 	}
-	if a.Script != nil && a.Script(c.Seq, "Decrypt") {
+	if a.faulty(c.Seq, "Decrypt") {
 		c.Err = true
 		a.Calls = append(a.Calls, c)
 		return nil, ErrAEAD
